@@ -685,10 +685,10 @@ def dag_layered_cubes(n, m, step):
 
 def wmedian_dag_ob(tier):
     q = tier == "quick"
-    cubes = [dict(c, ROT=r) for c in dag_layered_cubes(6, 9, 5 if q else 1) for r in ((0, 1) if q else (0, 1, 2))]
+    cubes = [dict(c, ROT=r) for c in dag_layered_cubes(6, 9, 5 if q else 2) for r in (0, 1)]
     return dict(name="wmedian-kernel-six-node-dags", pkg="internal/phase3", func="Harness_P3_Layered", consts={}, cubes=cubes, enctimeout=200, qtimeout=60, loop=512, validate_cubes=4,
                 bounds="real execWeightedMedian on the layered form (helper nodes for long edges, <= 4 layers of <= 6 nodes) of %s connected 6-node DAG with 9 edges x %d rotations "
-                       "of the initial node list; no symbolic dimension (exhaustive execution, queries decided by the simplifier)" % (nm(q, "every 5th", "every"), nm(q, 2, 3)))
+                       "of the initial node list; no symbolic dimension (exhaustive execution, queries decided by the simplifier)" % (nm(q, "every 5th", "every 2nd"), 2))
 
 
 def many_layer_shapes():
